@@ -45,7 +45,7 @@ _STATE = {
     'calls': [],        # (handler, arg) every wrapped AppCfgMgr call
     'svscan': 0,
     'orig': {},
-    'faults': {'svscan': 0, 'service': 0},
+    'faults': {'svscan': 0, 'service': 0, 'midsync_unlink': 0},
     'fault_hits': [],        # (target, context) of the current step
     'monitor_watcher': None,  # the DirWatcher of the live monitor
     'tomb_exec': {},         # (id, timestamp) -> number of executions
@@ -155,6 +155,28 @@ def install():
     context.GLOBAL.cell = 'vfcell'
     context.GLOBAL.zk.url = 'zookeeper://vf@vf-fake:2181/treadmill/vfcell'
 
+    # the event manager keeps applying placement changes while the manager synchronises: with the fault armed it
+    # unlinks one cache entry right after the manager listed the cache directory inside _synchronize
+    import glob as _glob
+
+    class _Glob:
+        def __getattr__(self, name):
+            return getattr(_glob, name)
+
+        @staticmethod
+        def glob(pattern, *args, **kwargs):
+            res = _glob.glob(pattern, *args, **kwargs)
+            if (_STATE['faults']['midsync_unlink'] > 0 and '_synchronize' in _STATE['stack']
+                    and os.path.basename(os.path.dirname(pattern)) == 'cache'):
+                victims = sorted(p for p in res if not os.path.basename(p).startswith('.'))
+                if victims:
+                    _STATE['faults']['midsync_unlink'] -= 1
+                    victim = victims[len(_STATE['calls']) % len(victims)]
+                    os.unlink(victim)
+                    _STATE['fault_hits'].append(('midsync_unlink', tuple(_STATE['stack'])))
+            return res
+    appcfgmgr.glob = _Glob()
+
     cls = appcfgmgr.AppCfgMgr
     for name in _WRAPPED:
         orig = getattr(cls, name)
@@ -223,6 +245,7 @@ def new_case():
     """Forget everything that belongs to the previous node."""
     _STATE['faults']['svscan'] = 0
     _STATE['faults']['service'] = 0
+    _STATE['faults']['midsync_unlink'] = 0
     _STATE['tomb_exec'].clear()
     _STATE['monitor_watcher'] = None
     reset_logs()
